@@ -12,7 +12,7 @@ import json
 import os
 import re
 
-from .. import inline, cg, core, emit, guards, vt
+from .. import special, inline, cg, core, emit, guards, vt
 from . import c15, c17, c08
 
 
@@ -52,6 +52,62 @@ def branch_of(fr):
     return 'body'
 
 
+_SPLIT = {'ctx': None, 'on': False}
+
+
+class _ScrutSpec(special.EnumSpec):
+    """`<this scrutinee value> is variant V` (the loop element, a field …), recognised by structural identity."""
+
+    def __init__(self, key, variant):
+        super().__init__(None, variant)
+        self.key = key
+
+    def is_scrut(self, v):
+        return vt.ckey(vt.unvar(v)) == self.key
+
+    def test(self, c, specs):
+        if c.get('k') in ('iflet', 'matches') and self.is_scrut(c.get('scrut')) and not c.get('guard'):
+            return self.variant in special._short(c.get('variants', []))
+        return None
+
+
+def by_variant(evs, depth):
+    """Path-sensitive refinement of a loop body whose conditions test the variant of one enum value (the loop element) — directly
+    (`if let V::Unit(_) = v`) or through a helper whose result depends on it (`if let Some(t) = self.content_type(v)?`): the body
+    is analysed once per variant, with the conditions that the variant decides resolved.  None when no such value is found."""
+    ctx = _SPLIT['ctx']
+    cands = []
+    for e in evs:
+        for fr in e[0][depth:]:
+            c = vt.unvar(fr.get('c')) if fr.get('k') == 'if' else None
+            sc, vs = (c.get('scrut'), c.get('variants', [])) if isinstance(c, dict) and c.get('k') in ('iflet', 'matches') else ((fr.get('scrut'), fr.get('variants', [])) if fr.get('k') == 'arm' else (None, []))
+            enums = {str(x).replace(' ', '').split('::')[-2] for x in vs if str(x).count('::') >= 1 and str(x).replace(' ', '').split('::')[-2][:1].isupper()}
+            if sc is not None and len(enums) == 1 and isinstance(vt.unvar(sc), dict):
+                cands.append((vt.ckey(vt.unvar(sc)), enums.pop()))
+    for key, en in cands:
+        item = next((i for i in ctx.astq['items'] if i['kind'] == 'enum' and i['name'] == en), None)
+        if item is None:
+            continue
+        total = set()
+        for var in item['variants']:
+            spec = [_ScrutSpec(key, var['name'])]
+            evs_v = []
+            for frames, nets, line in evs:
+                keep, dead = list(frames[:depth]), False
+                for fr in frames[depth:]:
+                    t = special.frames_truth(fr, spec) if fr.get('k') in ('if', 'arm') else None
+                    if t is False:
+                        dead = True
+                        break
+                    if t is None:
+                        keep.append(fr)
+                if not dead:
+                    evs_v.append((keep, nets, line))
+            total |= path_nets(evs_v, depth, [], '')
+        return total
+    return None
+
+
 def path_nets(events, depth, problems, fname):
     """events: [(frames, netset, line)].  Returns the set of possible nets along the structured paths."""
     here = [e for e in events if len(e[0]) == depth]
@@ -74,6 +130,10 @@ def path_nets(events, depth, problems, fname):
             s = set()
             for b, evs in branches.items():
                 s |= path_nets(evs, depth + 1, problems, fname)
+            if s != {(0, 0, 0)} and _SPLIT['on']:
+                s2 = by_variant([e for evs in branches.values() for e in evs], depth + 1)
+                if s2 is not None:
+                    s = s2
             if s != {(0, 0, 0)}:
                 problems.append((fr.get('line'), f"the body of the loop at line {fr.get('line')} has net delimiter balance {sorted(s)} per iteration (must be neutral)"))
             continue
@@ -170,6 +230,19 @@ def b1(ctx, rep, T):
         for f in fns + [d for d in drivers if d not in fns]:
             n += 1
             nets, problems = function_nets(ctx, T, f, {k: v for k, v in callee_nets.items() if k != f['name']})
+            if problems:
+                # correlated conditions in a loop body (opened under `not Unit`, closed under `content is Some`): once more on
+                # the inlined view, one enum variant at a time
+                raw = next((g for g in ctx.astq['functions'] if g['file'] == f['file'] and g['qual'] == f['qual'] and g['line'] == f['line']), None)
+                if raw is not None:
+                    fx = inline.view(ctx, raw)
+                    _SPLIT.update(ctx=ctx, on=True)
+                    try:
+                        nets2, problems2 = function_nets(ctx, T, fx, {k: v for k, v in callee_nets.items() if k != f['name'] and k not in {q.split('::')[-1] for q in fx.get('inlined', [])}})
+                    finally:
+                        _SPLIT.update(on=False)
+                    if not problems2:
+                        nets, problems = nets2, problems2
             site = {'file': f['file'], 'line': f['line']}
             key = f"{be}:{f['name']}"
             for line, msg in problems:
